@@ -410,12 +410,16 @@ def part_oracle(chk, tier):
              ("gophermap", "links", "symlinks", "prefixes", "zipnames")]
     protos = gen.PROTOCOLS
     jobs, meta = [], []
-    conts = G.containers(rng, ntrees)
-    for i in range(ntrees):
+    degenerate = G.degenerate_trees()
+    conts = G.containers(rng, ntrees) + [{"writer": w} for w in ("zipfile", "raw", "zipfile", "raw", "zipfile")][:len(degenerate)]
+    for i in range(ntrees + len(degenerate)):
         big = ("bigfiles",) if i % 2 == 0 else ()
         if tier == "thorough" and i % 8 == 0:
             big += ("hugefiles",)
-        tree = G.gen_tree(rng, feats[i % len(feats)] + ("rootmeta", "nested") + big)
+        if i < ntrees:
+            tree = G.gen_tree(rng, feats[i % len(feats)] + ("rootmeta", "nested") + big)
+        else:
+            tree = degenerate[i - ntrees][1]
         members = G.members_of(tree, rng, ["tree", "shuffle", "links_first"][i % 3])
         sels = G.tree_selectors(tree, rng, extra=4)
         sels = [p for p in sels if "//" not in p and not p.startswith("/")]
@@ -598,7 +602,7 @@ def part_oracle(chk, tier):
             chk.violation({"what": "requests into an archive created files in the server's working directory",
                            "created": zout["cwd_created"], "members": members, "handler_list": hname},
                           tag="D19-writes-in-server-cwd")
-    chk.coverage["oracle"] = {"trees": ntrees, "handler_lists": 2, "requests": nreq, "response_differences": ndiff,
+    chk.coverage["oracle"] = {"trees": ntrees, "degenerate_archives": [n for n, _ in degenerate], "handler_lists": 2, "requests": nreq, "response_differences": ndiff,
                               "history_requests_after_in_place_rewrite": nhist,
                               "real_only_handler_inside_archive": nreal, "protocols": protos,
                               "masked": ["'XT.zip' -> 'XT' in the archive's answers",
@@ -644,9 +648,11 @@ def classify_request_diff(tree, p, d19_paths):
 def translator_tie(chk):
     """Gen/ZipReal.v (the tests on self.vfs as they stand in the source) must turn VFSZip away."""
     from common import coq_compute
-    rc, out = coq_compute("C16", "t16", "Lib.Str Model.ZipChain Gen.ZipReal Corr.T16", "(repo_guards, repo_tests)")
-    ok = rc == 0 and "(true," in out.replace("\n", " ")
-    chk.coverage["translator_tie_real_only"] = {"repo_guards": ok, "coq_output": out.strip()[-400:]}
+    rc, out = coq_compute("C16", "t16", "Lib.Str Model.ZipChain Gen.ZipReal Corr.T16",
+                          "(repo_guards && repo_vfs_truthiness_ok, (repo_guards, repo_vfs_truthiness_ok, vfs_truthiness_sites, repo_tests))")
+    flat = out.replace("\n", " ")
+    ok = rc == 0 and "= (true," in flat
+    chk.coverage["translator_tie_real_only"] = {"repo_guards_and_vfs_truthiness": ok, "coq_output": out.strip()[-500:]}
     return ok
 
 
@@ -662,7 +668,8 @@ def run(tier):
                                   chk.k16_broken, found)
     if chk.proof_ok and not translator_tie(chk) and not found:
         chk.violation({"what": "translator tie: the tests on self.vfs in mbox.py / pyg.py / scriptexec.py do not turn "
-                               "VFSZip away (theorem C16_real_only_repo needs repo_guards = true)",
+                               "VFSZip away (theorem C16_real_only_repo needs repo_guards = true), or a VFS class defines "
+                               "__len__/__bool__ while VFS objects are used as truth values",
                        "detail": chk.coverage["translator_tie_real_only"]}, tag=None, no_input=True)
     chk.finish_proofs(found)
     chk.assumptions += [
